@@ -277,7 +277,7 @@ int8_t RadioTap::dbm_noise() const {
 }
 
 uint16_t RadioTap::signal_quality() const {
-    return do_find_option(DBM_SIGNAL).to<uint16_t>();
+    return do_find_option(LOCK_QUALITY).to<uint16_t>();
 }
 
 uint8_t RadioTap::antenna() const {
